@@ -150,7 +150,7 @@ func TestC08(t *testing.T) {
 	rc.MinRules, rc.MaxRules = 2, 5
 	rc.ExprDepth = 2
 	cfg := rsGenCfg{Rules: rc, Vary: true}
-	check(t, 0, budget(250, 9000), func(rt *rapid.T) {
+	check(t, 0, budget(800, 10000), func(rt *rapid.T) {
 		base, rs := genRSCase(rt, cfg)
 		prep, err := val.Prepare(base)
 		if err != nil {
